@@ -1,6 +1,7 @@
 import RsslVerif.Lemmas.CondChain
 import RsslVerif.Lemmas.CondParse
 import RsslVerif.Lemmas.CondFile
+import RsslVerif.Lemmas.CondFileFrame
 import RsslVerif.Lemmas.CondMacro
 /-!
 # C11 — conditional compilation selects exactly the branches C semantics select
@@ -530,6 +531,88 @@ theorem nonname_directive_ignored_when_skipped (inc : String → FState → Exce
     (RsslVerif.Model.CondFile.active st.chain = false → command inc cur st cmd = .ok st) ∧
     (RsslVerif.Model.CondFile.active st.chain = true → command inc cur st cmd = .error .unknownCommand) := by
   constructor <;> intro ha <;> simp [command, hn, gated, ha, nonNameGate]
+
+/-! ### an `#include` is processed every time it is met
+
+C has no multiple-include memory: `#include` names a file, and the file's text is processed in the macro state
+of that moment, every time (`#pragma once` is the one documented exception).  A header
+`#ifndef X / A / #else / B / #endif` therefore delivers `A` on a visit with `X` undefined and `B` on a visit with
+`X` defined. -/
+
+open RsslVerif.Lemmas.CondFileFrame in
+/-- Tie to the source: the `"include"` arm of `preprocess_command` is, token for token, `if skip { return }`,
+    the operand test (`InvalidInclude`), the depth limit (`IncludeDepthExceeded`), then `load` +
+    `preprocess_included_file` unconditionally (`includeArmHasNoSkip`, `includeArmExits`); `FileLoader::load`
+    withholds a file's text only when the file is in `pragma_once_files` (`loadWithholdsOnlyOnce`); the fields of
+    `struct FileLoader` and the members `preprocess_command` / `preprocess_included_file` touch are exactly the
+    ones the model has a counterpart for (the two name maps, the source manager and the include handler = the
+    pure `Handler`; `pragma_once_files` = `FState.once`; `include_depth` = `FState.depth`).  Re-extracted from
+    `/repo` on every run; any other shape is an `ExtractError`. -/
+theorem include_arm_shape_agree :
+    includeArmHasNoSkip = true ∧ loadWithholdsOnlyOnce = true ∧
+    includeArmExits = ["skip", "InvalidInclude", "IncludeDepthExceeded"] ∧
+    fileLoaderFields = ["file_name_remap", "real_name_remap", "pragma_once_files", "source_manager",
+      "include_handler", "include_depth"] ∧
+    fileLoaderUses = ["get_source_location_from_file_offset", "include_depth", "load", "mark_as_pragma_once",
+      "source_manager"] := by
+  decide
+
+open RsslVerif.Lemmas.CondFileFrame in
+/-- **Main theorem (re-inclusion).**  For every include handler, fuel, file name and state:
+
+    1. a file that is not in the pragma-once set is run through the token loop of `preprocess_included_file`
+       with its full token stream — there is no other condition under which the model leaves a file out;
+    2. the output produced so far is write-only: the include after any output `st.out` is the include after the
+       empty output with `st.out` put in front (`reout`), error or not.  So the tokens an `#include`
+       contributes, the macro table, chain and pragma-once set it leaves, or the error it raises, are a function
+       of the handler (the files' texts) and of `(chain, base, macros, once, depth)` at that point — nothing else
+       survives from earlier visits of the same file;
+    3. in particular two states that differ only in their output history get the same contribution. -/
+theorem include_is_processed_each_time (h : Handler) (fuel : Nat) (name : String) (st : FState) :
+    (∀ items, h name = some items → st.once.contains name = false →
+      includeFile h (fuel + 1) name st = runStream (includeFile h fuel) name st items) ∧
+    includeFile h fuel name st = reout st.out (includeFile h fuel name { st with out := [] }) ∧
+    (∀ o : List PTok, includeFile h fuel name { st with out := o } =
+      reout o (includeFile h fuel name { st with out := [] })) := by
+  refine ⟨?_, includeFile_framed h fuel name st, ?_⟩
+  · intro items hf ho
+    simp only [includeFile, hf, ho]
+    rfl
+  · intro o
+    exact includeFile_framed h fuel name { st with out := o }
+
+open RsslVerif.Lemmas.CondFileFrame in
+/-- **The `#else` group of a guard block is delivered on a later visit.**  For every handler, fuel and includer
+    state whose chain is active and whose pragma-once set does not hold the file: the header
+    `hdrGuardElse` = `#ifndef X⏎1⏎#else⏎2⏎#endif⏎` appends `1` when no macro is called `X`, and `2` when one is —
+    and changes nothing else.  Hence (second part) a visit with `X` undefined followed, after `X` got defined
+    (`ms'`), by a second visit yields `1 ⏎ 2 ⏎`: the second visit is not optimised away. -/
+theorem guard_else_group_delivered_on_reinclude (h : Handler) (fuel : Nat) (name : String) (st : FState)
+    (hf : h name = some hdrGuardElse) (ho : st.once.contains name = false)
+    (hact : RsslVerif.Model.CondFile.active st.chain = true) :
+    includeFile h (fuel + 1) name st =
+      .ok { st with out := st.out ++
+        [⟨.int (if st.macros.any (fun m => m.name == "X") then "2" else "1"), true⟩, ⟨.endline, true⟩] } ∧
+    (∀ ms' : List Macro, st.macros.any (fun m => m.name == "X") = false → ms'.any (fun m => m.name == "X") = true →
+      ∃ st1, includeFile h (fuel + 1) name st = .ok st1 ∧
+        includeFile h (fuel + 1) name { st1 with macros := ms' } =
+          .ok { st with macros := ms', out := st.out ++
+            [⟨.int "1", true⟩, ⟨.endline, true⟩, ⟨.int "2", true⟩, ⟨.endline, true⟩] }) := by
+  refine ⟨include_guard_else h fuel name st hf ho hact, ?_⟩
+  intro ms' h0 h1
+  refine ⟨_, include_guard_else h fuel name st hf ho hact, ?_⟩
+  have h2 := include_guard_else h fuel name
+    { st with macros := ms', out := st.out ++ [⟨.int "1", true⟩, ⟨.endline, true⟩] } hf ho hact
+  simp only [h0, h1, if_true] at h2 ⊢
+  rw [show (if false = true then "2" else "1") = "1" from rfl]
+  rw [h2]
+  simp
+
+/-- non-vacuity: the hypotheses of `guard_else_group_delivered_on_reinclude` hold for the initial state and a
+    handler that knows the header; the first visit yields `1` -/
+example : includeFile (fun n => if n = "h.h" then some RsslVerif.Lemmas.CondFileFrame.hdrGuardElse else none) 1 "h.h"
+      ⟨[], 0, [], [], [], 0⟩ = .ok ⟨[], 0, [], [⟨.int "1", true⟩, ⟨.endline, true⟩], [], 0⟩ :=
+  (guard_else_group_delivered_on_reinclude _ 0 "h.h" ⟨[], 0, [], [], [], 0⟩ rfl rfl rfl).1
 
 end IncludeBoundary
 
